@@ -4,7 +4,7 @@ import LentilVerif.Lemmas.Extent
 namespace Lentil
 
 /-- closed form of the translated `helper.slice_offset` (the `(0, 0)` special case is the general formula) -/
-theorem sliceOffset_eq (r0 r1 c0 c1 S0 S1 : Int) :
+theorem sliceOffset_closed (r0 r1 c0 c1 S0 S1 : Int) :
     Gen.sliceOffset r0 r1 c0 c1 S0 S1 = (r0 + (r1 - r0) / 2 - S0 / 2, c0 + (c1 - c0) / 2 - S1 / 2) := by
   unfold Gen.sliceOffset
   simp only []
@@ -19,6 +19,6 @@ containing array -/
 theorem slice_extent (r0 r1 c0 c1 S0 S1 : Int) :
     arrayExtent (r1 - r0) (c1 - c0) (Gen.sliceOffset r0 r1 c0 c1 S0 S1).1 (Gen.sliceOffset r0 r1 c0 c1 S0 S1).2
       = ⟨r0 - S0 / 2, r1 - 1 - S0 / 2, c0 - S1 / 2, c1 - 1 - S1 / 2⟩ := by
-  rw [sliceOffset_eq, arrayExtent_eq]; simp only [Extent.mk.injEq]; omega
+  rw [sliceOffset_closed, arrayExtent_eq]; simp only [Extent.mk.injEq]; omega
 
 end Lentil
